@@ -327,10 +327,27 @@ def run_ratelimit(env, p):
             env.fail(K + '/other-exception/' + type(e).__name__, repr(e))
             return
     env.check('ok' not in outcomes, K + '/call-succeeded-while-disconnected')
-    att = dev.connect_attempts
+    att = list(dev.connect_attempts)
     env.check(len(att) >= 1, K + '/never-tried-to-connect')
     for a, b in zip(att, att[1:]):
         env.check(b - a >= interval, K + '/reconnect-attempts-closer-than-interval', len(att))
+    # the poller tries to reconnect as well: its attempts and those of the callers together respect the interval
+    if env.choice('poll-in-between', 2):
+        t = t + env.real('pollgap', 0, 30)
+        clock.now = t
+        try:
+            io.doPoll()
+        except Exception:
+            pass
+        t = t + env.real('aftergap', 0, 30)
+        clock.now = t
+        try:
+            call(io, p['kind'], 'c')
+        except CommunicationFailedError:
+            pass
+        att2 = dev.connect_attempts
+        for a, b in zip(att2[len(att) - 1:], att2[len(att):]):
+            env.check(b - a >= interval, K + '/attempts-of-poller-and-caller-closer-than-interval', len(att2))
     for t_ in ('reply', 'timeout', 'reconnected'):
         env.note(t_)
 
@@ -385,12 +402,14 @@ def run_callbacks(env, p):
     counts = {}
     kinds = {}
     for name in ('a', 'b', 'c'):
-        kinds[name] = ['keep', 'false', 'raise'][env.choice('cb-' + name, 3)]
+        kinds[name] = ['keep', 'false', 'raise', 'none'][env.choice('cb-' + name, 4)]
 
         def cb(name=name):
             counts[name] = counts.get(name, 0) + 1
             if kinds[name] == 'raise':
                 raise ValueError('cb')
+            if kinds[name] == 'none':
+                return None      # an ordinary function without return statement: "cleared if it fails or returns False"
             return kinds[name] == 'keep'
         io.registerReconnectCallback(name, cb)
     rounds = 2
@@ -409,7 +428,7 @@ def run_callbacks(env, p):
         io.doPoll()
         env.check(io.is_connected is True, K + '/not-reconnected')
         for name in ('a', 'b', 'c'):
-            want = r + 1 if kinds[name] == 'keep' else 1
+            want = r + 1 if kinds[name] in ('keep', 'none') else 1
             env.check(counts.get(name, 0) == want, K + '/callback-count', [name, kinds[name], r, counts.get(name, 0)])
     env.note('reconnected')
     for t in ('reply', 'timeout', 'refused'):
